@@ -30,13 +30,14 @@ LEAN_TARGETS = ["Ipv8.C15.Props"]
 PROPS_FILE = "Ipv8/C15/Props.lean"
 DRIVER = "drv_c15"
 RULE = ("part A: random op sequences on the real Storage (put with ids equal/unequal to the key, version older/equal/"
-        "newer, differing max_age; get slices; clean; clock advances); part B: scenarios of 30-70 ops against a real "
+        "newer, differing max_age; get slices; clean; clock advances); part B: scenarios of 9 registration finds + 25/40/60 generated ops (some expand to several) against a real "
         "DHTDiscoveryCommunity node (find/store/store-peer datagrams from 3 keys x 3 addresses, tokens fresh/old/other "
         "identity/other node/junk/bit-flipped, value lists with valid, oversized, too many, forged, tampered, mis-claimed, "
         "unknown and malformed entries, rate-limit bursts, routing-table fillers that change max_age, rotations, "
         "maintenance); part C: value lists for post_process_values / Crawl.values and end-to-end find_values; "
         "distinct = distinct op sequence (hash); non-trivial = sequence contains at least one accepted and one rejected "
-        "store (B), one replacement decision (A), or one forged/duplicate-signer entry (C)")
+        "store (B), one replacement decision (A), one forged/duplicate-signer entry (C), a byte string whose signed fields parse "
+        "(D), a store_on_nodes call with an oversized or more than 8 values (F)")
 TRUSTED_BASE = [
     "tools/gen_dht.py: AST recognisers for the shapes listed in its docstring (anything else is a TranslatorError)",
     "hand-written model Ipv8/C15/Model.lean (Storage list manipulation, rate limit, interval tasks as a per-second tick, "
@@ -59,6 +60,8 @@ SPEC_MAX_VALUES = 8
 SPEC_TOKEN_WINDOW = 600
 SPEC_MAX_AGE = 3600
 SPEC_TARGET_NODES = 8
+SPEC_MAX_FIND = 8
+SPEC_VALUE_MAINTENANCE = 3600
 
 
 def spec_max_age(num_closer: int) -> int:
@@ -136,12 +139,17 @@ class World:
         else:
             signer, dnum, version = spec[1], spec[2], spec[3]
             data = b"s%d" % dnum
+            if kind == "sig_big":
+                data += b"+" * spec[4]
+                kind = "sig"
             pk = self.pkb[signer]
             claim = pk
             if kind == "sig_claim":
                 claim = self.pkb[(signer + 1) % len(self.pkb)]
             if kind == "sig_badkey":
                 claim = b"LibNaCLPK:short"
+            if kind == "sig_trail":
+                claim = pk + b"Z"       # parses to the same key: a second byte string for one signer
             body = b"\x01" + self.ser.pack_serializable(SignedStrPayload(data, version, claim))
             if kind == "sig_junk":
                 body += b"JUNK"
@@ -171,9 +179,17 @@ class World:
             elif kind == "sig_badkey":
                 b = body + sig
                 t.update(wire=("m",))
+            elif kind == "sig_trail":
+                # the signature verifies under the key these bytes parse to.  The property leaves open whether such an
+                # entry is accepted (ok=None); if it is, it counts as a value of signer `signer`, not of a new signer
+                b = body + sig
+                t.update(ok=None, signer=signer, version=version, data=data,
+                         wire=("g", data, version, pk, toy_sig(self.pks(pk), self.datas(data), version)))
             else:
                 raise ValueError(kind)
         t["bytes"] = b
+        if t.get("wire", ("",))[0] == "g":
+            t["claim"] = claim        # the key bytes on the wire; wire[3] is the canonical encoding of the key they parse to
         self._selfcheck(b, t)
         self.truth[b] = t
         self.cache[spec] = b
@@ -206,12 +222,12 @@ class World:
         else:
             got = ("u",)
         if w[0] == "g":
-            exp = ("g", w[1], w[2], w[3], w[4] == toy_sig(self.pks(w[3]), self.datas(w[1]), w[2]))
+            exp = ("g", w[1], w[2], t["claim"], w[4] == toy_sig(self.pks(w[3]), self.datas(w[1]), w[2]))
         else:
             exp = w
         if got != exp:
             raise AssertionError(f"harness self-check: blob {t['spec']} classified {exp} but reference parser says {got}")
-        if t["ok"] != (got[0] == "s" or (got[0] == "g" and got[4])):
+        if t["ok"] is not None and t["ok"] != (got[0] == "s" or (got[0] == "g" and got[4])):
             raise AssertionError(f"harness self-check: acceptability of {t['spec']}")
 
     def line(self, b: bytes) -> str:
@@ -230,6 +246,9 @@ class World:
 
 def rand_blob_spec(rng, nkeys=3, big=True):
     r = rng.random()
+    if r < 0.04 and big:
+        # signed entry around the size limit: total length = 147 + len(data); data = b"sN" + padding
+        return ("sig_big", rng.randrange(nkeys), rng.randrange(4), rng.choice([0, 1, 2, 3]), rng.choice([19, 20, 21, 22, 23]))
     if r < 0.22:
         return ("str", rng.randrange(6), 0)
     if r < 0.26 and big:
@@ -241,6 +260,8 @@ def rand_blob_spec(rng, nkeys=3, big=True):
     if r < 0.88:
         return (rng.choice(["sig_badsig", "sig_tamper", "sig_vtamper", "sig_claim"]), rng.randrange(nkeys),
                 rng.randrange(4), rng.choice([0, 1, 2, 3, 5, 7, 9, 2 ** 31, 2 ** 32 - 1]))
+    if r < 0.90:
+        return ("sig_trail", rng.randrange(nkeys), rng.randrange(4), rng.choice([0, 1, 2, 3, 5, 7, 9]))
     if r < 0.92:
         return ("unknown", rng.choice([2, 3, 255]))
     if r < 0.95:
@@ -287,9 +308,10 @@ def run_storage_seq(ctx: Ctx, ops, lines_out, impl_out):
 
     from ipv8.dht import storage as storage_mod
     from ipv8.dht.storage import Storage
+    import types
     now = [1000]
-    real_time = _time.time
-    storage_mod.time.time = lambda: float(now[0])
+    real_time_mod = storage_mod.time
+    storage_mod.time = types.SimpleNamespace(time=lambda: float(now[0]))   # only storage.py sees the fake clock
     try:
         st = Storage()
         h20 = Idx()
@@ -369,7 +391,7 @@ def run_storage_seq(ctx: Ctx, ops, lines_out, impl_out):
                     impl_out.append("[" + ",".join(str(meta[d]) for d in st.get(keys[k])) + "]")
         return True, replaced
     finally:
-        storage_mod.time.time = real_time
+        storage_mod.time = real_time_mod
 
 
 def exhaustive_storage_seqs(depth: int):
@@ -458,6 +480,16 @@ def gen_node_ops(rng, n):
             ops.append(("rotate",))
         elif r < 0.87:
             ops.append(("clean",))
+        elif r < 0.875:
+            # many distinct plain values under one target: more than MAX_VALUES_IN_FIND are stored, then looked up
+            tgt = rng.randrange(6)
+            base = rng.randrange(1000)
+            for part in range(rng.choice([2, 2, 3])):
+                ops.append(("find", ident, tgt, 0, False))
+                ops.append(("store", ident, ("last", 0), tgt,
+                            tuple(("str", 100 + base + 8 * part + j, 0) for j in range(rng.choice([5, 8, 8])))))
+            ops.append(("find", ident, tgt, 0, False))
+            ops.append(("find", ident, tgt, rng.choice([1, 3, 9]), False))
         elif r < 0.885:
             ops.append(("ping", ident))
         elif r < 0.90:
@@ -575,8 +607,6 @@ class NodeRun:
             rt = ov.routing_tables.get(UDPv4Address)
             if rt is None:
                 return 0
-            if sum(len(b.nodes) for b in rt.trie.values()) > 20:
-                raise AssertionError("harness keeps the routing table at <= 20 nodes")
             # closest_nodes() collapses entries that share a public key (Peer equality); use the table's own answer
             nodes = rt.closest_nodes(target, max_nodes=20)
             my = ov.get_my_node_id(ov.my_peer)
@@ -648,8 +678,11 @@ class NodeRun:
             issued.append(rec)
             by_ident.setdefault(ident, []).append(rec)
             self.emit(line, f"tok#{ref} {W.uids(resp.values)}")
-            ctx.count("B.find:vals%d" % min(len(resp.values), 8))
-            if len(resp.values) > 8:
+            ctx.count("B.find:vals%d" % min(len(resp.values), 9))
+            stored_now = len(dump(targets[ti]))
+            if stored_now > 8 and not force:
+                ctx.count("B.find:more-stored-than-limit")
+            if len(resp.values) > SPEC_MAX_FIND:
                 self.fail("DHTCommunity.on_find_request:too-many-values", f"{len(resp.values)} values in one response", i)
 
         async def do_ping(ident):
@@ -691,6 +724,20 @@ class NodeRun:
                     await asyncio.sleep(op[1])
                     await drain(6)
                     self.emit(f"adv {op[1]}", "ok")
+                    # a scheduled value_maintenance run (every SPEC_VALUE_MAINTENANCE s since creation) fell into this
+                    # advance: whatever survives must have been within its lifetime when that run happened
+                    t_end = loop.time()
+                    k_last = int((t_end - t_start) // SPEC_VALUE_MAINTENANCE)
+                    t_run = t_start + k_last * SPEC_VALUE_MAINTENANCE
+                    if k_last >= 1 and t_run > now:
+                        ctx.count("B.scheduled-maintenance-crossed")
+                        for ti, tg in enumerate(targets):
+                            for b in dump(tg):
+                                if not any(x[0] == tg and x[1] == b and t_run - x[2] <= x[3] for x in accepted):
+                                    self.fail("Storage.clean:expired-survives",
+                                              f"value {W.truth.get(b, {}).get('spec')} under target {ti} is still stored at "
+                                              f"t+{int(t_end - t_start)}, after the maintenance run due at t+{int(t_run - t_start)}, "
+                                              f"although every accepted store of it was past its lifetime by then", i)
             elif op[0] == "rotate":
                 ov.token_maintenance()
                 self.emit("rotate", "ok")
@@ -730,6 +777,9 @@ class NodeRun:
                     ctx.count("B.value:" + s[0])
                 if big:
                     ctx.count("B.store:oversized")
+                for b in vals:
+                    if SPEC_MAX_SIZE - 1 <= len(b) <= SPEC_MAX_SIZE + 2:
+                        ctx.count(f"B.value-at-limit:{'signed' if W.truth[b]['wire'][0] == 'g' else 'plain'}:{len(b)}")
                 if many:
                     ctx.count("B.store:too-many")
                 if data is None and not changed:
@@ -737,6 +787,10 @@ class NodeRun:
                                                    "blocked-or-noop"))
                 if data is None and changed:
                     ctx.count("B.store:exception-after-partial-store")
+                if (data is not None or changed) and tok[2] is not None:
+                    age = int(now - tok[2])
+                    ctx.count("B.accepted-token-age:" + ("0-9" if age < 10 else "10-299" if age < 300 else
+                                                         "300-599" if age < 600 else "600+"))
                 if data is not None or changed:
                     self.flags.add("acc")
                     if not ok_tok:
@@ -758,25 +812,36 @@ class NodeRun:
                 new = [b for b in after if b not in before]
                 for b in new:
                     t = W.truth.get(b)
-                    if t is None or b not in vals or not t["ok"]:
+                    if t is None or b not in vals or t["ok"] is False:
                         self.fail("DHTCommunity.add_value:unauthentic-stored",
                                   f"value {t['spec'] if t else b[:20]!r} entered the storage although it is not a valid "
                                   f"(signed or plain) entry of this request", i)
+                by_signer = {}
+                for b in after:
+                    t = W.truth.get(b)
+                    if t and t["signer"] is not None:
+                        by_signer.setdefault(t["signer"], []).append(t)
+                for sg, ts in by_signer.items():
+                    if len(ts) > 1:
+                        self.fail("DHTCommunity.add_value:two-values-one-signer",
+                                  f"target {ti} holds {len(ts)} values of signing key #{sg} (versions "
+                                  f"{[x['version'] for x in ts]}, kinds {[x['spec'][0] for x in ts]}): an older version lives "
+                                  f"next to a newer one", i)
                 # version monotonicity per (target, signer)
                 for b in before:
                     t = W.truth.get(b)
                     if t and t["signer"] is not None:
                         for b2 in after:
                             t2 = W.truth.get(b2)
-                            if t2 and t2["signer"] == t["signer"] and t2["wire"][3] == t["wire"][3] \
-                                    and t2["version"] < t["version"]:
+                            if t2 and t2["signer"] == t["signer"] and t2["version"] < t["version"] \
+                                    and b not in after:
                                 self.fail("Storage.put:older-replaced-newer",
                                           f"signer {t['signer']}: stored version {t['version']} replaced by {t2['version']}", i)
                 for b in vals:
                     t = W.truth[b]
                     if t["signer"] is not None and t["ok"]:
                         olds = [W.truth[x]["version"] for x in before if W.truth.get(x) and
-                                W.truth[x]["signer"] == t["signer"] and W.truth[x]["wire"][3] == t["wire"][3]]
+                                W.truth[x]["signer"] == t["signer"]]
                         if olds:
                             ctx.count("B.version:" + ("older" if t["version"] < olds[0] else
                                                       "equal" if t["version"] == olds[0] else "newer"))
@@ -881,33 +946,41 @@ def part_b(ctx: Ctx, nscen: int, use_model: bool, seqs=None):
 # Part C — lookup side
 # ==================================================================================================================
 def check_lookup(ctx: Ctx, W: World, values, result, site, replay):
-    """the property on a post-processed result, from ground truth only; result = list of (data, pk or None)"""
-    best = {}
+    """the property on a post-processed result, from ground truth only; result = list of (data, pk or None).
+    A signer is a KEY (index in W.keys), whatever byte string names it."""
+    must = {}      # signer -> highest version among entries that must be accepted
+    claims = {}    # reported key bytes -> signer
     for b in values:
         t = W.truth[b]
-        if t["ok"] and t["signer"] is not None:
-            pk = t["wire"][3]
-            best[pk] = max(best.get(pk, -1), t["version"])
-    seen = set()
+        if t["signer"] is not None and t["ok"] is not False:
+            claims[t["wire"][3]] = t["signer"]
+            claims[t["claim"]] = t["signer"]
+            if t["ok"]:
+                must[t["signer"]] = max(must.get(t["signer"], -1), t["version"])
+    seen = {}
     for data, pk in result:
         if pk is None:
             continue
-        cands = [W.truth[b] for b in values if W.truth[b]["ok"] and W.truth[b]["signer"] is not None
-                 and W.truth[b]["wire"][3] == pk and W.truth[b]["data"] == data]
+        cands = [W.truth[b] for b in values if W.truth[b]["ok"] is not False and W.truth[b]["signer"] is not None
+                 and pk in (W.truth[b]["wire"][3], W.truth[b]["claim"]) and W.truth[b]["data"] == data]
         if not cands:
-            ctx.oracle_fail(site + ":unauthentic", f"lookup reports {data!r} as signed by key #{W.pks(pk)} but no value with "
-                            f"a verifying signature by that key carries this data", replay)
+            ctx.oracle_fail(site + ":unauthentic", f"lookup reports {data!r} as signed by key bytes #{W.pks(pk)} but no value "
+                            f"with a verifying signature by that key carries this data", replay)
             return False
-        if max(c["version"] for c in cands) < best[pk]:
+        signer = claims[pk]
+        if signer in seen:
+            ctx.oracle_fail(site + ":signer-twice",
+                            f"signing key #{signer} is reported twice (as key bytes #{W.pks(seen[signer][0])} with version "
+                            f"{seen[signer][1]} and as #{W.pks(pk)} with version {max(c['version'] for c in cands)}): not "
+                            f"one highest version per signer", replay)
+            return False
+        seen[signer] = (pk, max(c["version"] for c in cands))
+        if max(c["version"] for c in cands) < must.get(signer, -1):
             ctx.oracle_fail(site + ":not-highest-version",
-                            f"lookup reports version {max(c['version'] for c in cands)} for key #{W.pks(pk)} although "
-                            f"version {best[pk]} was among the values", replay)
+                            f"lookup reports version {max(c['version'] for c in cands)} for signing key #{signer} although "
+                            f"version {must[signer]} was among the values", replay)
             return False
-        if pk in seen:
-            ctx.oracle_fail(site + ":signer-twice", f"key #{W.pks(pk)} reported twice", replay)
-            return False
-        seen.add(pk)
-    if seen != set(best):
+    if not set(must) <= set(seen):
         ctx.oracle_fail(site + ":signer-missing", "a signer with a verifying value is not reported", replay)
         return False
     return True
@@ -968,8 +1041,10 @@ def part_c(ctx: Ctx, ncases: int, use_model: bool, seqs=None):
             lines.append(line)
             impl.append(got)
             reps.append(replay)
-            signers = [W.truth[b]["signer"] for b in values if W.truth[b]["ok"] and W.truth[b]["signer"] is not None]
-            forged = any(not W.truth[b]["ok"] and W.truth[b]["wire"][0] == "g" for b in values)
+            signers = [W.truth[b]["signer"] for b in values if W.truth[b]["ok"] is not False and W.truth[b]["signer"] is not None]
+            forged = any(W.truth[b]["ok"] is False and W.truth[b]["wire"][0] == "g" for b in values)
+            if any(W.truth[b]["spec"][0] == "sig_trail" for b in values):
+                ctx.count("C.pp:non-canonical-key")
             ctx.count("C.pp:n%d" % min(len(values), 12))
             ctx.count("C.pp:forged" if forged else "C.pp:no-forged")
             ctx.count("C.pp:dup-signer" if len(signers) != len(set(signers)) else "C.pp:unique-signers")
@@ -1000,7 +1075,7 @@ def part_c(ctx: Ctx, ncases: int, use_model: bool, seqs=None):
                 break
 
 
-def part_c_e2e(ctx: Ctx, ncases: int):
+def part_c_e2e(ctx: Ctx, ncases: int, seqs=None):
     """end-to-end find_values: one client, three real servers holding different versions; oracle only"""
     import logging
     from ipv8.test.mocking import endpoint as mep
@@ -1021,11 +1096,15 @@ def part_c_e2e(ctx: Ctx, ncases: int):
             key = hashlib.sha1(b"e2e").digest()
             held = []
             spec_lists = []
-            for s in servers:
-                specs = [rand_blob_spec(rng, big=False) for _ in range(rng.choice([0, 1, 2, 3, 5]))]
+            for si, s in enumerate(servers):
+                specs = [rand_blob_spec(rng, big=True) for _ in range(rng.choice([0, 1, 2, 3, 5]))]
                 specs = [x for x in specs if x[0] not in ("empty", "trunc", "sig_badkey")]
+                if rng.random() < 0.15:
+                    specs.append(("str", rng.randrange(3), rng.choice([168, 400, 5000])))   # a server may hold anything
                 if rng.random() < 0.7:
                     specs.append(("sig", 0, rng.randrange(3), rng.choice([1, 2, 3, 4])))
+                if seqs:
+                    specs = list(seqs[i][si])
                 spec_lists.append(specs)
                 st = s.overlay.get_storage(Node(s.my_peer.key, s.my_peer.address))
                 for sp in specs:
@@ -1054,7 +1133,13 @@ def part_c_e2e(ctx: Ctx, ncases: int):
                     for b in st.get(key):
                         if b not in mine:
                             ctx.count("C.e2e:cached")
-                            if not W.truth.get(b, {}).get("ok"):
+                            if len(b) > SPEC_MAX_SIZE:
+                                ctx.count("C.e2e:cached-oversized")
+                                ctx.oracle_fail("DHTCommunity.store_on_nodes:oversized-stored",
+                                                f"node {idx} stored a {len(b)}-byte value (limit {SPEC_MAX_SIZE}) that it "
+                                                f"received in a find response: the lookup's caching path writes the "
+                                                f"storage without the size limit", replay)
+                            if W.truth.get(b, {}).get("ok") is False or b not in W.truth:
                                 ctx.oracle_fail("DHTCommunity.add_value:unauthentic-stored",
                                                 f"node {idx} cached the invalid entry {W.truth.get(b, {}).get('spec')} during "
                                                 f"a lookup", replay)
@@ -1068,6 +1153,124 @@ def part_c_e2e(ctx: Ctx, ncases: int):
         run_in_vloop(go)
     finally:
         logging.disable(logging.NOTSET)
+
+
+# ==================================================================================================================
+# Part F — the node's own store_on_nodes (local store + what it sends on), also reached from every lookup
+# ==================================================================================================================
+def gen_cache_specs(rng):
+    n = rng.choice([0, 1, 2, 3, 5, 8, 9, 10, 12])
+    specs = [rand_blob_spec(rng) for _ in range(n)]
+    if rng.random() < 0.8:
+        specs = [x for x in specs if x[0] not in ("empty", "trunc", "sig_badkey")]
+    if rng.random() < 0.3:
+        specs.insert(rng.randrange(len(specs) + 1), ("str", rng.randrange(3), rng.choice([168, 169, 400, 5000])))
+    return specs
+
+
+def part_f(ctx: Ctx, ncases: int, use_model: bool, seqs=None):
+    import logging
+    from ipv8.test.mocking import endpoint as mep
+    logging.disable(logging.CRITICAL)
+    rng = ctx.rng
+    runs = []
+
+    async def go():
+        import time as _t
+
+        from ipv8.dht.community import DHTCommunity
+        from ipv8.dht.payload import StoreRequestPayload
+        from ipv8.dht.routing import Node
+        from ipv8.messaging.interfaces.udp.endpoint import UDPv4Address
+        from ipv8.messaging.payload_headers import BinMemberAuthenticationPayload
+        for ci in range(ncases):
+            mep.internet.clear()
+            W = World(rng)
+            client = det_node(rng, DHTCommunity)
+            client.overlay.cancel_pending_task("node_maintenance")
+            ov = client.overlay
+            raddr = UDPv4Address("10.3.3.3", 3000)
+            cap = Cap(mep, raddr).ep
+            remote = Node(W.keys[0].pub(), raddr)
+            loop = asyncio.get_running_loop()
+            lines, impl = [f"reset {int(loop.time())}"], ["ok"]
+            key = hashlib.sha1(b"cachekey").digest()
+            rounds = seqs[ci] if seqs else [gen_cache_specs(rng) for _ in range(rng.choice([1, 2, 3]))]
+            replay = {"part": "F", "rounds": rounds}
+            interesting = False
+            for specs in rounds:
+                values = [W.blob(sp) for sp in specs]
+                ov.tokens[remote.id] = (_t.time(), b"t" * 20)
+                before = list(ov.storages[UDPv4Address].get(key)) if UDPv4Address in ov.storages else []
+                n0 = len(cap.got)
+                t0 = loop.time()
+                try:
+                    await ov.store_on_nodes(key, values, [remote])
+                    ctx.count("F.store_on_nodes:returned")
+                except Exception as e:
+                    ctx.count("F.store_on_nodes:raised:" + type(e).__name__)
+                dt = int(loop.time() - t0)
+                after = list(ov.storages[UDPv4Address].get(key)) if UDPv4Address in ov.storages else []
+                lines.append(f"cache {W.h20(key)} 1 " + " ".join(W.line(b) for b in values) if values
+                             else f"cache {W.h20(key)} 1")
+                impl.append("ok")
+                if dt:
+                    lines.append(f"adv {dt}")
+                    impl.append("ok")
+                lines.append(f"dump {W.h20(key)}")
+                impl.append(W.uids(after))
+                big = [b for b in values if len(b) > SPEC_MAX_SIZE]
+                ctx.count("F.values:n%d" % min(len(values), 12))
+                ctx.count("F.values:with-oversized" if big else "F.values:all-within-size")
+                interesting = interesting or bool(big) or len(values) > SPEC_MAX_VALUES
+                new = [b for b in after if b not in before]
+                if len(new) > SPEC_MAX_VALUES:
+                    ctx.oracle_fail("DHTCommunity.store_on_nodes:too-many-stored",
+                                    f"one store_on_nodes call put {len(new)} values into the node's own storage "
+                                    f"(limit {SPEC_MAX_VALUES})", replay)
+                for b in after:
+                    if len(b) > SPEC_MAX_SIZE:
+                        ctx.oracle_fail("DHTCommunity.store_on_nodes:oversized-stored",
+                                        f"the node's own storage holds a {len(b)}-byte value after store_on_nodes "
+                                        f"(limit {SPEC_MAX_SIZE})", replay)
+                    if W.truth[b]["ok"] is False:
+                        ctx.oracle_fail("DHTCommunity.add_value:unauthentic-stored",
+                                        f"store_on_nodes stored the invalid entry {W.truth[b]['spec']}", replay)
+                # what it sends to the remote node
+                for src, data in cap.got[n0:]:
+                    if data[22] != StoreRequestPayload.msg_id:
+                        continue
+                    auth, _ = ov.serializer.unpack_serializable(BinMemberAuthenticationPayload, data, offset=23)
+                    rem = data[2 + len(auth.public_key_bin):-64]
+                    pl = ov.serializer.unpack_serializable_list([StoreRequestPayload], rem, offset=23)[0]
+                    ctx.count("F.sent:n%d" % min(len(pl.values), 9))
+                    lines.append("keep " + " ".join(W.line(b) for b in values) if values else "keep")
+                    impl.append(W.uids(pl.values))
+                    if len(pl.values) > SPEC_MAX_VALUES or any(len(b) > SPEC_MAX_SIZE for b in pl.values):
+                        ctx.oracle_fail("DHTCommunity.store_on_nodes:limits-sent",
+                                        f"store request sent with {len(pl.values)} values, max length "
+                                        f"{max(map(len, pl.values), default=0)}", replay)
+            runs.append((lines, impl, replay))
+            ctx.case(("F", repr(rounds)), interesting)
+            await client.stop()
+        mep.internet.clear()
+
+    _pyrandom.seed(rng.getrandbits(64))
+    try:
+        run_in_vloop(go)
+    finally:
+        logging.disable(logging.NOTSET)
+    if use_model:
+        flat = [ln for r in runs for ln in r[0]]
+        replies = ctx.driver().batch(flat) if flat else []
+        pos = 0
+        for lines, impl, replay in runs:
+            for j, (ln, got) in enumerate(zip(lines, impl)):
+                if replies[pos + j] != got:
+                    ctx.disagree(f"part F: model {replies[pos + j]!r} != implementation {got!r} on `{ln[:200]}`",
+                                 dict(replay, line=ln))
+                    break
+            pos += len(lines)
 
 
 # ==================================================================================================================
@@ -1143,12 +1346,12 @@ def part_d(ctx: Ctx, ncases: int, use_model: bool):
                 ctx.count("D.unser:raise:" + type(e).__name__)
                 r = None
             # what the abstract interface answers for the one key / message / signature this value can ask about
-            keyok, siglen, valid, q = 0, 64, 0, ""
+            keyok, siglen, valid, q, canon = 0, 64, 0, "", b""
             f = ref_fields(v) if v[:1] == b"\x01" else None
             if f is not None:
                 try:
                     pub = ec.key_from_public_bin(f[2])
-                    keyok, siglen = 1, ec.get_signature_length(pub)
+                    keyok, siglen, canon = 1, ec.get_signature_length(pub), pub.key_to_bin()
                     valid = 1 if ec.is_valid_signature(pub, v[:-siglen], v[-siglen:]) else 0
                 except Exception:
                     keyok = 0
@@ -1156,7 +1359,7 @@ def part_d(ctx: Ctx, ncases: int, use_model: bool):
             # property on the implementation: a signed triple only for verifying values, fields as on the wire
             if r is not None and r[1] is not None:
                 ctx.count("D.unser:ok-signed")
-                if f is None or not keyok or not valid or (r[0], r[2], r[1]) != f:
+                if f is None or not keyok or not valid or (r[0], r[2]) != f[:2] or r[1] != canon:
                     ctx.oracle_fail("DHTCommunity.unserialize_value:unauthentic",
                                     f"unserialize_value returns data {r[0]!r} as signed by {r[1][:14]!r}… although "
                                     f"{'the fields do not parse' if f is None else 'the key does not parse' if not keyok else 'the signature does not verify' if not valid else 'the fields differ from the wire'}",
@@ -1168,11 +1371,11 @@ def part_d(ctx: Ctx, ncases: int, use_model: bool):
                                     {"part": "D", "value": v.hex()})
             elif got == "none":
                 ctx.count("D.unser:none" + (":badsig" if f is not None and keyok else ""))
-            lines.append(f"unserb {v.hex() or '-'} {keyok} {siglen} {valid}")
+            lines.append(f"unserb {v.hex() or '-'} {keyok} {siglen} {valid} {canon.hex() or '-'}")
             impl.append(got + q)
-            ctx.case(("D", v.hex()), kind != "same")
+            ctx.case(("D", v.hex()), f is not None)      # non-trivial = the three signed fields parse
             # the description handed to the abstract model (parts B, C) agrees with the real parser on unmutated blobs
-            if kind == "same":
+            if kind == "same" and W.truth[base]["ok"] is not None:
                 w = W.truth[base]["wire"]
                 exp = ("raise" if w[0] == "m" else "none" if w[0] == "u" else
                        f"ok {w[1].hex() or '-'} - 0" if w[0] == "s" else
@@ -1225,6 +1428,7 @@ def run(ctx: Ctx):
     part_c(ctx, ctx.scale(1200, 10000), use_model)
     part_c_e2e(ctx, ctx.scale(40, 400))
     part_d(ctx, ctx.scale(1500, 20000), use_model)
+    part_f(ctx, ctx.scale(150, 1500), use_model)
 
 
 def search(ctx: Ctx, reason: str):
@@ -1235,6 +1439,7 @@ def search(ctx: Ctx, reason: str):
         part_c(ctx, 3000, False)
         part_c_e2e(ctx, 60)
         part_d(ctx, 6000, False)
+        part_f(ctx, 400, False)
 
 
 def replay_value(ctx: Ctx, v: bytes):
@@ -1284,6 +1489,10 @@ def replay(ctx: Ctx, rec: dict):
         part_c(ctx, 1, ctx.model_ok, seqs=[[_tuplify(o) for o in r["specs"]]])
     elif part == "D" and "value" in r:
         replay_value(ctx, bytes.fromhex(r["value"]))
+    elif part == "F":
+        part_f(ctx, 1, ctx.model_ok, seqs=[[[_tuplify(o) for o in rd] for rd in r["rounds"]]])
+    elif part == "E" and "servers" in r:
+        part_c_e2e(ctx, 1, seqs=[[[_tuplify(o) for o in sv] for sv in r["servers"]]])
     else:
         print("replay: this record has no re-runnable input")
         return
